@@ -11,7 +11,7 @@ from .c04 import model
 from .common import sctx
 
 PROP = "C06"
-FLOORS = {"C06.R1": 10, "C06.R2": 5, "C06.R3": 3, "C06.R4": 20, "C06.R5": 10, "C06.R6": 3}
+FLOORS = {"C06.R1": 10, "C06.R2": 5, "C06.R3": 3, "C06.R4": 20, "C06.R5": 10, "C06.R6": 3, "C06.R7": 1}
 META = {
     "explanation": "Equality of refs is by printed form, hashing by a structural tuple. Per class the fields hashed equal the fields "
                    "rendered (plus a type discriminator on both sides) and a hashed field reaches the text untransformed (no sorting, "
@@ -314,3 +314,8 @@ def check(col: Collector):
     from . import c19
     with col.rule():
         shared(col, "C06.R6", [c19._plain_names], why="ItemRef(owner, Token('NAME', 'a')) and owner['a'] hash alike but are not equal")
+    # round 7: the hash covers the fields as stored (a field normalised on the way in while the hash takes the raw argument)
+    from . import c20
+    with col.rule():
+        shared(col, "C06.R7", [c20._cinit_rules], select=lambda o: "field-assigned-by-one-cinit" in o.construct,
+               why="equality compares the printed (stored) fields; a hash computed from the raw constructor argument differs for equal references")
